@@ -395,6 +395,83 @@ def _canonical_comparisons(tree: ast.AST):
                 n.left, n.comparators, n.ops = r, [l], [_FLIP[type(n.ops[0])]()]
 
 
+def _names_in(n: ast.AST):
+    return {x.id for x in ast.walk(n) if isinstance(x, ast.Name)}
+
+
+def _canonical_statements(tree: ast.AST):
+    """statement-level canonical forms inside functions (all are pure re-spellings):
+       x = x op y                      ->  x op= y
+       v = E ; return v                ->  return E            (v a plain local used nowhere else)
+       x = [] ; for t in it: x.append(e)  ->  x = [e for t in it]   (x not used in e / it)
+       if c: ...return|raise|continue|break  else: B   ->   if c: ...   followed by B"""
+    for fn in [n for n in ast.walk(tree) if isinstance(n, (ast.FunctionDef, ast.AsyncFunctionDef))]:
+        captured = set()       # names read by nested functions / lambdas (their value may be observed later)
+        for sub in ast.walk(fn):
+            if sub is not fn and isinstance(sub, (ast.FunctionDef, ast.AsyncFunctionDef, ast.Lambda)):
+                captured |= _names_in(sub)
+        for _round in range(3):
+            for node in ast.walk(fn):
+                for fld in ("body", "orelse", "finalbody"):
+                    blk = getattr(node, fld, None)
+                    if not isinstance(blk, list) or not blk or not isinstance(blk[0], ast.stmt):
+                        continue
+                    out: List[ast.stmt] = []
+                    i = 0
+                    while i < len(blk):
+                        st = blk[i]
+                        nxt = blk[i + 1] if i + 1 < len(blk) else None
+                        # x = x op y
+                        if isinstance(st, ast.Assign) and len(st.targets) == 1 and isinstance(st.value, ast.BinOp) and \
+                                isinstance(st.targets[0], (ast.Name, ast.Subscript, ast.Attribute)) and \
+                                ast.dump(_as_load(st.targets[0])) == ast.dump(st.value.left) and getattr(st, "ann", None) is None:
+                            out.append(ast.copy_location(ast.AugAssign(target=st.targets[0], op=st.value.op, value=st.value.right), st))
+                            i += 1
+                            continue
+                        # v = E ; return v
+                        if isinstance(st, ast.Assign) and len(st.targets) == 1 and isinstance(st.targets[0], ast.Name) and isinstance(nxt, ast.Return) \
+                                and isinstance(nxt.value, ast.Name) and nxt.value.id == st.targets[0].id and st.targets[0].id not in captured \
+                                and getattr(st, "ann", None) is None:
+                            out.append(ast.copy_location(ast.Return(value=st.value), nxt))
+                            i += 2
+                            continue
+                        # x = [] ; for t in it: x.append(e)
+                        if isinstance(st, ast.Assign) and len(st.targets) == 1 and isinstance(st.targets[0], ast.Name) and isinstance(st.value, ast.List) \
+                                and not st.value.elts and isinstance(nxt, ast.For) and not nxt.orelse and len(nxt.body) == 1 and \
+                                isinstance(nxt.body[0], ast.Expr) and isinstance(nxt.body[0].value, ast.Call) and \
+                                isinstance(nxt.body[0].value.func, ast.Attribute) and nxt.body[0].value.func.attr == "append" and \
+                                isinstance(nxt.body[0].value.func.value, ast.Name) and nxt.body[0].value.func.value.id == st.targets[0].id and \
+                                len(nxt.body[0].value.args) == 1 and not nxt.body[0].value.keywords:
+                            x = st.targets[0].id
+                            e = nxt.body[0].value.args[0]
+                            if x not in _names_in(e) and x not in _names_in(nxt.iter) and x not in _names_in(nxt.target):
+                                comp = ast.ListComp(elt=e, generators=[ast.comprehension(target=nxt.target, iter=nxt.iter, ifs=[], is_async=0)])
+                                out.append(ast.copy_location(ast.Assign(targets=[st.targets[0]], value=ast.copy_location(comp, nxt)), st))
+                                i += 2
+                                continue
+                        # else after a terminating body
+                        if isinstance(st, ast.If) and st.orelse and st.body and isinstance(st.body[-1], (ast.Return, ast.Raise, ast.Continue, ast.Break)):
+                            rest = st.orelse
+                            st.orelse = []
+                            out.append(st)
+                            out.extend(rest)
+                            i += 1
+                            continue
+                        out.append(st)
+                        i += 1
+                    setattr(node, fld, out)
+    ast.fix_missing_locations(tree)
+
+
+def _as_load(t: ast.AST) -> ast.AST:
+    import copy as _c
+    t = _c.deepcopy(t)
+    for x in ast.walk(t):
+        if hasattr(x, "ctx"):
+            x.ctx = ast.Load()
+    return t
+
+
 def normalise_tree(tree: ast.AST) -> int:
     """In-place canonicalisation applied to every module before any analysis, so that the rules do not depend on incidental syntax:
       * `x: T = v`  becomes  `x = v`  (the annotation is kept on the node as `.ann` for type inference);
@@ -403,6 +480,7 @@ def normalise_tree(tree: ast.AST) -> int:
     removed = 0
     _canonical_receivers(tree)
     _canonical_comparisons(tree)
+    _canonical_statements(tree)
     for fn in [n for n in ast.walk(tree) if isinstance(n, (ast.FunctionDef, ast.AsyncFunctionDef))]:
         for node in ast.walk(fn):
             for fld in ("body", "orelse", "finalbody"):
